@@ -828,3 +828,41 @@ func sortedKeys(m map[string]bool) []string {
 	sort.Strings(out)
 	return out
 }
+
+// CalledThroughHelpers returns the objects called by the given instructions, descending (to the given
+// depth) into statically resolved callees which are private helpers: unexported functions or methods of a
+// repo package. An "extract method" refactoring therefore leaves the result unchanged. watched objects are
+// never descended into.
+func (w *World) CalledThroughHelpers(instrs map[ssa.Instruction]bool, watched func(*types.Func) bool, depth int) map[*types.Func]bool {
+	got := map[*types.Func]bool{}
+	seen := map[*ssa.Function]bool{}
+	var visit func(in ssa.Instruction, d int)
+	visit = func(in ssa.Instruction, d int) {
+		cc, ok := in.(ssa.CallInstruction)
+		if !ok {
+			return
+		}
+		o := CalleeObj(cc)
+		if o == nil {
+			return
+		}
+		got[o] = true
+		if watched(o) || d <= 0 || o.Exported() || o.Pkg() == nil || !isRepoPath(o.Pkg().Path()) {
+			return
+		}
+		f := cc.Common().StaticCallee()
+		if f == nil || len(f.Blocks) == 0 || seen[f] {
+			return
+		}
+		seen[f] = true
+		for _, b := range f.Blocks {
+			for _, i2 := range b.Instrs {
+				visit(i2, d-1)
+			}
+		}
+	}
+	for in := range instrs {
+		visit(in, depth)
+	}
+	return got
+}
